@@ -340,12 +340,25 @@ class _TextualFinder:
 
     def _search_in_f_string(self, f_string: str) -> Iterator[int]:
         tree = ast.parse(f_string)
+        line_starts = [0]
+        for index, char in enumerate(f_string):
+            if char == "\n":
+                line_starts.append(index + 1)
+
+        def offset(lineno, col_offset):
+            # ast positions are (line, UTF-8 byte column); the literal may span lines
+            start = line_starts[lineno - 1]
+            end = line_starts[lineno] if lineno < len(line_starts) else len(f_string)
+            line = f_string[start:end].encode("utf-8")
+            return start + len(line[:col_offset].decode("utf-8"))
+
         for node in ast.walk(tree):
             if isinstance(node, ast.Name) and node.id == self.name:
-                yield node.col_offset
+                yield offset(node.lineno, node.col_offset)
             elif isinstance(node, ast.Attribute) and node.attr == self.name:
                 assert node.end_col_offset is not None
-                yield node.end_col_offset - len(self.name)
+                assert node.end_lineno is not None
+                yield offset(node.end_lineno, node.end_col_offset) - len(self.name)
 
     def _normal_search(self, source: str) -> Iterator[int]:
         current = 0
